@@ -40,6 +40,11 @@ def base_spec(b, start):
     elif b["lv"] == "proj":
         spec["vacations"] = [(D(start, 1), D(start, 3))]
         spec["gleaves"] = [("holiday", D(start, 9), None)]
+    elif b["lv"] == "longproj":
+        # a five-week shutdown: it contains a whole calendar month at some week offsets and not at others
+        spec["vacations"] = [(D(start, 35), D(start, 70))]
+    elif b["lv"] == "longres":
+        r1["leaves"] = [{"k": "leaves", "type": "annual", "a": D(start, 35), "b": D(start, 70)}]
     if b["lim"] == "daily":
         r1["limits"] = {"dailymax": "2h"}
     elif b["lim"] == "weekly":
@@ -76,7 +81,11 @@ def bases(tier):
 def long_bases():
     return [{"cal": "default", "lv": "none", "lim": "daily", "mode": "asap", "pin": False, "dur": "9w"},
             {"cal": "split", "lv": "proj", "lim": "weekly", "mode": "asap", "pin": False, "dur": "9w"},{"cal": "default", "lv": "none", "lim": "weekly", "mode": "asap", "pin": False, "dur": "60w", "long_effort_h": 270},
-            {"cal": "default", "lv": "proj", "lim": "weekly", "mode": "asap", "pin": False, "dur": "110w", "long_effort_h": 520}]
+            {"cal": "default", "lv": "proj", "lim": "weekly", "mode": "asap", "pin": False, "dur": "110w", "long_effort_h": 520},
+            {"cal": "split", "lv": "longproj", "lim": "none", "mode": "asap", "pin": False, "dur": "20w", "long_effort_h": 160},
+            {"cal": "night", "lv": "longproj", "lim": "none", "mode": "asap", "pin": False, "dur": "20w", "long_effort_h": 260},
+            {"cal": "default", "lv": "longproj", "lim": "none", "mode": "asap", "pin": False, "dur": "20w", "long_effort_h": 260},
+            {"cal": "split", "lv": "longres", "lim": "none", "mode": "asap", "pin": False, "dur": "20w", "long_effort_h": 160}]
 
 
 def universe(tier):
@@ -87,8 +96,8 @@ def universe(tier):
             for k in ks:
                 yield {"b": b, "start": s, "k": k}
     for b in long_bases():
-        for s in (STARTS if (tier == "thorough" or b["dur"] == "9w") else [STARTS[0], STARTS[3]]):
-            for k in ((1, 52, 53, 104) if (tier == "quick" and b["dur"] != "9w") else (1, 2, 3, 4, 5, 13, 26, 52, 53, 104, 157)):
+        for s in (STARTS if (tier == "thorough" or b["dur"] in ("9w", "20w")) else [STARTS[0], STARTS[3]]):
+            for k in ((1, 52, 53, 104) if (tier == "quick" and b["dur"] not in ("9w", "20w")) else (1, 2, 3, 4, 5, 13, 26, 52, 53, 104, 157)):
                 yield {"b": b, "start": s, "k": k}
 
 
